@@ -17,6 +17,7 @@ import re
 import shutil
 import subprocess
 import threading
+import urllib.parse
 from vlib.common import *
 from vlib import lsp
 
@@ -298,6 +299,66 @@ TEXTS = ["", "x", "\n", "entity e2 is\nend entity;\n", "signal \u00e9 : bit;\r\n
          "architecture z of ent is begin end;", "package p2 is end package;\n", "-- c\n", "end", "\t(", "'"]
 
 
+# ---- pool of string values: lengths in BYTES around every power of two, characters of 1-4 UTF-8 bytes placed so
+# that a multi-byte character straddles the byte offset, combining marks, RTL, NUL and control characters
+STR_BYTE_LENGTHS = [0, 1, 2, 3, 4, 7, 8, 9, 15, 16, 17, 31, 32, 33, 63, 64, 65, 66, 127, 128, 129, 255, 256, 257,
+                    511, 512, 513, 1000, 1023, 1024, 1025, 4095, 4096, 4097]
+STR_CLASSES = {
+    "ascii": ["a", "z", "_", "0"],
+    "2byte": ["\u00e9", "\u00e4", "\u00ff", "\u0416"],
+    "3byte": ["\u20ac", "\u4e2d", "\u0939", "\ufffd"],
+    "4byte": ["\U0001F600", "\U00010348", "\U0001F1E9"],
+    "combining": ["e\u0301", "a\u0308\u0323", "\u0301"],
+    "rtl": ["\u05d0", "\u0627", "\u202e", "\u200f"],
+    "control": ["\x00", "\x01", "\x1b", "\x7f", "\t", "\r", "\n", "\u0085", "\u2028", "\ufeff"],
+}
+STR_SPECIAL = ["", " ", "\x00", "a\x00b", "\u202eabc", "\ud7ff\ue000", "\U0010FFFF", "'", '"', "\\", "%C3%A9", "%", "%ZZ",
+               "a" + "\u00e9" * 40, "\u00e9" * 40, "\u20ac" * 30, "\U0001F600" * 20, "a" * 64, "a" * 65]
+
+
+def pool_string(r, max_bytes=5000):
+    """A string whose UTF-8 length is (about) one of STR_BYTE_LENGTHS, built from one character class (or a mix),
+    after an ASCII prefix of 0-3 bytes so that a multi-byte character straddles the interesting offsets."""
+    c = r.random()
+    if c < 0.15:
+        return r.choice(STR_SPECIAL)
+    n = r.choice([x for x in STR_BYTE_LENGTHS if x <= max_bytes] + ([70000] if max_bytes >= 70000 and r.random() < 0.25 else []))
+    cls = r.choice(["2byte", "3byte", "4byte"] * 3 + ["ascii", "combining", "rtl", "control", "mix", "mix"])
+    prefix = "a" * r.choice([0, 0, 1, 2, 3])
+    out = [prefix]
+    size = len(prefix)
+    unit = None if cls == "mix" else r.choice(STR_CLASSES[cls])
+    while size < n:
+        ch = unit if unit is not None else r.choice(STR_CLASSES[r.choice(sorted(STR_CLASSES))])
+        out.append(ch)
+        size += len(ch.encode("utf-8"))
+    return "".join(out)
+
+
+def pool_document(r):
+    """Document contents with long multi-byte lines; requests then use positions around the same offsets."""
+    lines = []
+    for _ in range(r.choice([1, 2, 4])):
+        k = r.random()
+        body = pool_string(r, 1100).replace("\n", " ").replace("\r", " ")
+        if k < 0.3:
+            lines.append("-- " + body)
+        elif k < 0.5:
+            lines.append('constant c : string := "%s";' % body.replace('"', '""'))
+        elif k < 0.7:
+            lines.append("signal " + body + " : bit;")
+        elif k < 0.85:
+            lines.append("/* " + body)
+        else:
+            lines.append(body)
+    head = r.choice(["", "entity outside is\nend entity;\n", "package p is\n"])
+    return head + r.choice(["\n", "\r\n", "\r"]).join(lines) + r.choice(["", "\n", "\nend package;\n"])
+
+
+EDGE_CHARS = [0, 1, 2, 3, 4, 5, 15, 16, 17, 20, 21, 22, 30, 31, 32, 33, 42, 43, 63, 64, 65, 66, 127, 128, 129, 255, 256, 257,
+              340, 341, 342, 511, 512, 513, 1000, 1023, 1024, 1025]
+
+
 class Gen:
     def __init__(self, seed_value):
         self.r = random.Random(seed_value)
@@ -308,7 +369,16 @@ class Gen:
     # ---- atoms
     def uri(self, kind=None):
         r = self.r
-        kind = kind or r.choice(["proj"] * 6 + ["ws", "nonfile", "odd", "unparsable"] + ["opened"] * 3)
+        kind = kind or r.choice(["proj"] * 6 + ["ws", "nonfile", "odd", "unparsable", "unicode"] + ["opened"] * 3)
+        if kind == "unicode":
+            # file URIs (always parsable, validated) with raw / percent-encoded UTF-8 / percent-encoded non-UTF-8 names
+            x = pool_string(r, 300)
+            k = r.random()
+            if k < 0.5:
+                x = urllib.parse.quote(x, safe="")
+            elif k < 0.7:
+                x = urllib.parse.quote(x.encode("latin-1", "replace"), safe="/")
+            return "file://%s/%s.vhd" % (WS, x)
         if kind == "opened":
             if self.opened:
                 return r.choice(sorted(self.opened))
@@ -332,8 +402,10 @@ class Gen:
         if c < 0.45 and name in GOOD_POS:
             l, ch = r.choice(GOOD_POS[name])
             return {"line": l, "character": ch}
-        if c < 0.7:
+        if c < 0.6:
             return {"line": r.randrange(0, 30), "character": r.randrange(0, 80)}
+        if c < 0.72:
+            return {"line": r.randrange(0, 6), "character": r.choice(EDGE_CHARS)}
         if c < 0.94:
             return {"line": r.choice(BIG + [0, 1, 12]), "character": r.choice(BIG + [0, 3])}
         return {"line": r.choice(TOO_BIG + BIG), "character": r.choice(TOO_BIG + BIG)}
@@ -361,7 +433,8 @@ class Gen:
                 i = r.choice([0, -1, 2 ** 31 - 1, -2 ** 31, 42])
             else:
                 i = r.choice(["a", "req-%d" % r.randrange(1000), "", "1", "0", "\u00e9\U0001F600", "null", "x y",
-                              "%d" % r.randrange(10 ** 6), "id,with;separators|" + str(r.randrange(100))])
+                              "%d" % r.randrange(10 ** 6), "id,with;separators|" + str(r.randrange(100)),
+                              pool_string(r, 300) + str(r.randrange(1000))])
             key = json.dumps(i)
             if key not in self.used_ids:
                 self.used_ids.add(key)
@@ -390,9 +463,11 @@ class Gen:
             return self.tdpp(uri)
         if m == "textDocument/rename":
             p = self.tdpp(uri)
-            p["newName"] = r.choice(["renamed", "", "x y", "\u00e9", "entity", "a" * 300])
+            p["newName"] = r.choice(["renamed", "", "x y", "\u00e9", "entity", "a" * 300] + [pool_string(r, 70000)] * 4)
             return p
         if m == "workspace/symbol":
+            if r.random() < 0.6:
+                return {"query": pool_string(r, 70000)}
             return {"query": r.choice(["", "ent", "pkg", "st", "clk", "zzzz", "\u00e4", "a" * 200, "+", "'a'", "*"])}
         if m in ("textDocument/documentSymbol", "textDocument/semanticTokens/full"):
             return {"textDocument": {"uri": uri or self.uri()}}
@@ -409,21 +484,26 @@ class Gen:
             if c < 0.3:
                 p["context"] = {"triggerKind": r.choice([1, 2, 3, 99, -1])}
             elif c < 0.5:
-                p["context"] = {"triggerKind": 2, "triggerCharacter": r.choice([".", "'", "", "xx"])}
+                p["context"] = {"triggerKind": 2, "triggerCharacter": r.choice([".", "'", "", "xx", pool_string(r, 300),
+                                                                                pool_string(r, 5000)])}
             elif c < 0.6:
                 p["context"] = None
             return p
         if m == "completionItem/resolve":
-            p = {"label": r.choice(["ent", "", "pkg", "x"])}
+            p = {"label": r.choice(["ent", "", "pkg", "x", pool_string(r, 5000), pool_string(r, 300)])}
             if r.random() < 0.7:
                 p["data"] = r.choice([0, 1, 5, 17, 1000, 2 ** 32, 2 ** 40, 2 ** 63, 2 ** 64 - 1, -1, "x", None, {}, [1],
                                       r.randrange(0, 5000), r.randrange(0, 2 ** 34), 1.5])
             if r.random() < 0.4:
                 p["kind"] = r.choice([1, 9, 25, 0, -3])
             if r.random() < 0.3:
-                p["detail"] = "d"
+                p["detail"] = r.choice(["d", pool_string(r, 5000)])
             if r.random() < 0.2:
-                p["sortText"] = "s"
+                p["sortText"] = r.choice(["s", pool_string(r, 300)])
+            if r.random() < 0.2:
+                p["insertText"] = pool_string(r, 5000)
+            if r.random() < 0.15:
+                p["filterText"] = pool_string(r, 300)
             if r.random() < 0.2:
                 p["commitCharacters"] = [";", "("]
             if r.random() < 0.2:
@@ -436,16 +516,18 @@ class Gen:
     def note_params(self, m):
         r = self.r
         if m == "textDocument/didOpen":
-            u = self.uri(r.choice(["proj", "proj", "ws", "ws", "nonfile", "odd"]))
-            text = r.choice(TEXTS + [FILES["a.vhd"], FILES["b.vhd"], FILES["err.vhd"], NONPROJ_TEXT, NONPROJ_TEXT])
+            u = self.uri(r.choice(["proj", "proj", "ws", "ws", "nonfile", "odd", "unicode"]))
+            text = r.choice(TEXTS + [FILES["a.vhd"], FILES["b.vhd"], FILES["err.vhd"], NONPROJ_TEXT, NONPROJ_TEXT]
+                            + [pool_document(r)] * 8)
             if url_ok(u):
                 self.opened.add(u)
-            return {"textDocument": {"uri": u, "languageId": "vhdl", "version": r.randrange(-3, 100), "text": text}}
+            return {"textDocument": {"uri": u, "languageId": r.choice(["vhdl", "vhdl", "", pool_string(r, 300)]),
+                                     "version": r.randrange(-3, 100), "text": text}}
         if m == "textDocument/didChange":
             u = self.uri(r.choice(["proj", "proj", "proj", "ws", "nonfile", "odd"]))
             changes = []
             for _ in range(r.choice([1, 1, 1, 2, 3, 0])):
-                ch = {"text": r.choice(TEXTS)}
+                ch = {"text": r.choice(TEXTS + [pool_string(r, 1100)] * 4 + [pool_document(r)] * 2)}
                 c = r.random()
                 if c < 0.7:
                     ch["range"] = self.range(u)
@@ -453,7 +535,7 @@ class Gen:
                         ch["rangeLength"] = r.choice([0, 5, 4294967295])
                 elif c < 0.8:
                     ch["range"] = None
-                    ch["text"] = r.choice(TEXTS + [FILES["a.vhd"], FILES["b.vhd"]])
+                    ch["text"] = r.choice(TEXTS + [FILES["a.vhd"], FILES["b.vhd"]] + [pool_document(r)] * 4)
                 changes.append(ch)
             return {"textDocument": {"uri": u, "version": r.randrange(0, 1000)}, "contentChanges": changes}
         if m == "workspace/didChangeWatchedFiles":
@@ -645,7 +727,7 @@ class Gen:
             for u in docs:
                 msgs += self.sweep(u)
             msgs.append({"jsonrpc": "2.0", "id": self.new_id(), "method": "workspace/symbol",
-                         "params": {"query": r.choice(["", "outside", "ent", "s"])}})
+                         "params": {"query": r.choice(["", "outside", "ent", "s", pool_string(r, 5000)])}})
             msgs.append({"jsonrpc": "2.0", "id": self.new_id(), "method": "completionItem/resolve",
                          "params": {"label": "x", "data": r.randrange(0, 3000)}})
             # edits after the reload, then the document requests again
